@@ -88,18 +88,24 @@ class Transformer(Visitor):
         self.inplace = inplace
         self.rebuild_scopes = rebuild_scopes
 
-    def _invalidate_source(self, source, children):
+    def _invalidate_source(self, source, children, original=None):
         """
         Utility method to determine the :data:`source` of a node that is
         rebuilt or updated with the provided children.
 
         If :data:`invalidate_source` is `True` and any of the children has
-        been invalidated, a copy of :data:`source` that is marked as invalid
+        been invalidated, or a child node of the :data:`original` children
+        has been removed, a copy of :data:`source` that is marked as invalid
         is returned, otherwise :data:`source` itself.
         """
         if self.invalidate_source and is_source_valid(source):
+            nodes = [c for c in flatten(children) if isinstance(c, Node)]
             # If any child node has been invalidated, mark this node as invalid too
-            if any(isinstance(c, Node) and not is_source_valid(c) for c in flatten(children)):
+            invalid = any(not is_source_valid(c) for c in nodes)
+            if original is not None:
+                # Dropping a child node changes this node as well
+                invalid = invalid or len(nodes) < sum(1 for c in flatten(original) if isinstance(c, Node))
+            if invalid:
                 source = source.clone()
                 source.invalidate(children=True)
         return source
@@ -114,7 +120,7 @@ class Transformer(Visitor):
         args_frozen = o.args_frozen
         args_frozen.update(args)
         if 'source' in args_frozen:
-            args_frozen['source'] = self._invalidate_source(args_frozen['source'], children)
+            args_frozen['source'] = self._invalidate_source(args_frozen['source'], children, original=o.children)
 
         if self.inplace:
             # Updated nodes in place, if requested
@@ -241,10 +247,11 @@ class Transformer(Visitor):
 
         # Recurse to children, passing down the scope
         kwargs['scope'] = o
-        rebuilt = tuple(self.visit(i, **kwargs) for i in o.children)
+        children = o.children
+        rebuilt = tuple(self.visit(i, **kwargs) for i in children)
 
         # Update in-place the node with rebuilt children
-        o._update(*rebuilt, source=self._invalidate_source(o.source, rebuilt))
+        o._update(*rebuilt, source=self._invalidate_source(o.source, rebuilt, original=children))
         return o
 
     def visit(self, o, *args, **kwargs):
